@@ -23,6 +23,8 @@ type FuncInfo struct {
 	Obj   *types.Func
 	File  *ast.File
 	Contr *Contract
+	// VarInit: pseudo function standing for the initialiser of a package-level variable
+	VarInit bool
 }
 
 // Program is the loaded /repo.
@@ -108,6 +110,33 @@ func LoadProgram(repoDir string) (*Program, error) {
 		p.ByPath[pkg.PkgPath] = pkg
 		for _, f := range pkg.Syntax {
 			for _, d := range f.Decls {
+				if gd, isGen := d.(*ast.GenDecl); isGen && gd.Tok == token.VAR {
+					// package-level variable initialisers that contain function literals can be put under contract
+					// as the pseudo function "var:<name>" whose body evaluates the initialiser
+					for _, sp := range gd.Specs {
+						vs := sp.(*ast.ValueSpec)
+						for i, nm := range vs.Names {
+							if i >= len(vs.Values) {
+								continue
+							}
+							hasLit := false
+							ast.Inspect(vs.Values[i], func(n ast.Node) bool {
+								if _, ok := n.(*ast.FuncLit); ok {
+									hasLit = true
+								}
+								return true
+							})
+							if !hasLit {
+								continue
+							}
+							decl := &ast.FuncDecl{Name: nm, Type: &ast.FuncType{Func: vs.Values[i].Pos(), Params: &ast.FieldList{}},
+								Body: &ast.BlockStmt{Lbrace: vs.Values[i].Pos() - 1, List: []ast.Stmt{&ast.ExprStmt{X: vs.Values[i]}}, Rbrace: vs.Values[i].End()}}
+							fi := &FuncInfo{Key: relPkg(pkg.PkgPath) + ".var:" + nm.Name, Pkg: pkg, Decl: decl, File: f, VarInit: true}
+							p.Funcs[fi.Key] = fi
+						}
+					}
+					continue
+				}
 				fd, ok := d.(*ast.FuncDecl)
 				if !ok {
 					continue
